@@ -121,7 +121,7 @@ P["C14"] = dict(
 )
 
 P["C15"] = dict(
-    text="Static scope-agreement analysis of the symbol table: provenance expressions (parameters by position, calls with their arguments, field paths; references, clones and `?` looked through) are extracted from MIR and compared between sibling sites. In SymbolManager::declare the scope tested for duplicates, the scope inserted into and the scope recorded as the new context are all `enclosing[0..level]` of the same context parameter and level parameter; the insertion is behind the false edge of `level > enclosing.len()` (true edge: error) and the `not found` edge of the duplicate lookup (found edge: error); depth = level; the ItemRef is the index pushed at. try_get_by_name looks the written path up below get_parent(None, enclosing[0..level]) and finds nothing when the level exceeds the nesting; traverse/get_parent descend through name 0 in the children of the parent and recurse on the rest; get_by_name turns `not found` into an error. The four AST walkers that carry a symbol context (declaration, matching, constants pre-pass, resolution) are discovered from the code and must each replace the context on every path through a Symbol node by the context recorded for that node's declaration, starting from the global context; evaluation receives the walker's current context and eval_variable looks names up with exactly (context of use, written level, written path) and rejects a value-less symbol once guessing is not allowed; the three parsers count one level per Dot token from zero and record the count; all symbols are declared before anything is resolved (PIPE).",
+    text="Static scope-agreement analysis of the symbol table: provenance expressions (parameters by position, calls with their arguments, field paths; references, clones and `?` looked through) are extracted from MIR and compared between sibling sites. In SymbolManager::declare the scope tested for duplicates, the scope inserted into and the scope recorded as the new context are all `enclosing[0..level]` of the same context parameter and level parameter; the insertion is behind the false edge of `level > enclosing.len()` (true edge: error) and the `not found` edge of the duplicate lookup (found edge: error); depth = level; the ItemRef is the index pushed at. try_get_by_name looks the written path up below get_parent(None, enclosing[0..level]) and finds nothing when the level exceeds the nesting; traverse/get_parent descend through name 0 in the children of the parent and recurse on the rest; get_by_name turns `not found` into an error. The AST walkers that carry a symbol context (declaration, matching, constants pre-pass, resolution, bank definitions) are discovered from the code and must each replace the context on every path through a Symbol node by the context recorded for that node's declaration, starting from the global context; evaluation receives the walker's current context and eval_variable looks names up with exactly (context of use, written level, written path) and rejects a value-less symbol once guessing is not allowed; the three parsers count one level per Dot token from zero and record the count; all symbols are declared before anything is resolved (PIPE).",
     note="Decides the lexical-scoping structure: which scope a declaration/reference lands in and that all phases agree on it. Not decided: that moving an address-independent constant changes nothing for every program (behavioural; its structural part is the declare-before-resolve phase order and the fixed-point rules of C02).",
     technique="static analysis: provenance-expression agreement between sibling call sites over MIR, edge-dominance of insertion by the rejection tests, discovered-sibling cross-check of AST walkers with a path search over the Symbol arm, counter def-use shape",
     design_ref="3 SYM, 4 C15",
